@@ -46,8 +46,13 @@ def run(ctx):
             classes[k] = v["vec"]
     ctx.cov["asis_model_failure_classes"] = sorted(classes)
     # every finished session of the exhaustive run, with the samples the transcription predicts
+    done = list(res.tag("VERIF_DONE"))
+    if not quick:
+        # same, with time-based purging (WithMaxTimeDelay) in play: the tooOld path of purgeBuffers
+        resd = vlib.tlc_model(ctx, "SampleBuilder", "SampleBuilder_RingDelay", workers=6)
+        done += list(resd.tag("VERIF_DONE"))
     conf = []
-    for v in res.tag("VERIF_DONE"):
+    for v in done:
         c = dict(v[0]["vec"])
         c["expect"] = v[0]["out"]
         c["mode"] = "model:exhaustive"
